@@ -183,7 +183,7 @@ func genFree(t *rapid.T) string {
 }
 
 func genCase(t *rapid.T) Case {
-	c := Case{Rules: route.GenRuleSet(t, route.GenOpts{}, 6)}
+	c := Case{Rules: route.GenOverlappingRuleSet(t, route.GenOpts{}, 6)}
 	var tms []*ref.Template
 	var verbs []string
 	for i, mr := range c.Rules {
@@ -204,7 +204,7 @@ func genCase(t *rapid.T) Case {
 			continue
 		}
 		ti := rapid.IntRange(0, len(tms)-1).Draw(t, "ti")
-		path, _ := route.Instantiate(t, tms[ti], 3)
+		path, _ := route.Instantiate(t, tms[ti], 3, tms...)
 		verb := strings.ToUpper(verbs[ti])
 		if verb == "*" || rapid.IntRange(0, 9).Draw(t, "otherverb") == 0 {
 			verb = rapid.SampledFrom(reqVerbs).Draw(t, "rv")
